@@ -175,19 +175,73 @@ class QuickSort(Entry):
         return "quicksort %s" % clist(c["d"])
 
 
+PAYLOADS = ("dict", "complex", "str_bytes_none", "object", "nan", "ndarray2", "set")
+
+
+class _Opaque:
+    """a value without any ordering (object has no __lt__)"""
+    __slots__ = ("tag",)
+
+    def __init__(self, tag):
+        self.tag = tag
+
+
+def make_payload(kind, i):
+    """the i-th VALUE of a key-value sort: an opaque payload.  None of these can be ordered (comparison raises
+    TypeError, is ambiguous, or is always False), so a sort that ever compares two values shows"""
+    if kind == "dict":
+        return {"row": i}
+    if kind == "complex":
+        return complex(i % 3, -i)
+    if kind == "str_bytes_none":
+        return None if i == 0 else ("s%d" % i if i % 2 else b"b%d" % i)
+    if kind == "object":
+        return _Opaque(i)
+    if kind == "nan":
+        return float("nan")
+    if kind == "set":
+        return {i, -1 - i} if i % 2 else frozenset((i,))
+    import numpy as np
+    return np.array([i, -i])
+
+
 class QuickSortKV(Entry):
     name = "quicksort_keyvalue"
 
     def cases(self, ctx, round=0):
-        return [{"k": a, "v": list(range(100, 100 + len(a))), "family": k} for a, k in _arrays(ctx, round)]
+        r = ctx.rng
+        cs = [{"k": a, "v": list(range(100, 100 + len(a))), "family": k} for a, k in _arrays(ctx, round)]
+        # values are opaque payloads ("values only need the [] operator"): tied keys with values that cannot be ordered
+        for kind in PAYLOADS:
+            for n in ([2, 5, 8, 9, 23] if round == 0 else [r.randrange(2, 40)]):
+                cs.append({"k": [r.randrange(0, 3) for _ in range(n)], "v": list(range(100, 100 + n)), "payload": kind,
+                           "container": r.choice(["list", "ndarray"]), "family": "opaque values/" + kind})
+            if round == 0:
+                cs.append({"k": [1, 1], "v": [100, 101], "payload": kind, "container": "list", "family": "opaque values/" + kind})
+                cs.append({"k": [2, 1, 2, 0, 1], "v": [100, 101, 102, 103, 104], "payload": kind, "container": "ndarray",
+                           "family": "opaque values/" + kind})
+        return cs
 
     def impl(self, c):
         import esutil.algorithm as alg
 
         def f():
-            k, v = list(c["k"]), list(c["v"])
+            if not c.get("payload"):
+                k, v = list(c["k"]), list(c["v"])
+                alg.quicksort_keyvalue(k, v)
+                return list(zip(k, v))
+            import numpy as np
+            objs = [make_payload(c["payload"], i) for i in range(len(c["k"]))]
+            ident = {id(o): 100 + i for i, o in enumerate(objs)}        # payloads are recognised by identity
+            if c["container"] == "ndarray":
+                k = np.array(c["k"], dtype="i8")
+                v = np.empty(len(objs), dtype=object)
+                for i, o in enumerate(objs):
+                    v[i] = o
+            else:
+                k, v = list(c["k"]), list(objs)
             alg.quicksort_keyvalue(k, v)
-            return list(zip(k, v))
+            return [(int(a), ident.get(id(b), -1)) for a, b in zip(k, v)]
         return core.guarded(f)
 
     def term(self, c, out):
